@@ -85,8 +85,11 @@ impl Spoil {
     }
 }
 
+/// recycle timeout of the pool of the current history (also passed with every call)
+static RECYCLE_TIMEOUT: Mutex<Option<Duration>> = Mutex::new(None);
+
 fn zero_wait() -> Timeouts {
-    Timeouts { wait: Some(Duration::ZERO), create: None, recycle: None }
+    Timeouts { wait: Some(Duration::ZERO), create: None, recycle: *RECYCLE_TIMEOUT.lock().unwrap() }
 }
 
 /// what a pool under test offers to the generic history runner
@@ -543,19 +546,25 @@ fn main() {
         let len = 4 + rng.below(14);
         done += len + 1;
         let which = rng.below(4);
+        // every other pool has a (generous) recycle timeout: the verdict of `Manager::recycle`
+        // must count with and without one
+        let rtmo = if rng.chance(50) { Some(Duration::from_secs(30)) } else { None };
+        *RECYCLE_TIMEOUT.lock().unwrap() = rtmo;
         rt.block_on(async {
             match which {
                 0 => {
                     let script = Arc::new(Script::default());
                     let mgr = deadpool_r2d2::Manager::new(ScriptedMgr(script.clone()), Runtime::Tokio1);
-                    let pool = Pool::builder(mgr).max_size(max).runtime(Runtime::Tokio1).build().unwrap();
+                    let pool = Pool::builder(mgr).max_size(max).runtime(Runtime::Tokio1).recycle_timeout(rtmo).build().unwrap();
                     let mut s = R2d2Subject { pool, script };
                     history(&mut s, &mut rng, &format!("sp cfg kind=r2d2 max={max} method=fast"), max, len).await;
                 }
                 1 => {
                     let cfg = deadpool_sqlite::Config::new(":memory:");
                     let mut cfg = cfg;
-                    cfg.pool = Some(deadpool_sqlite::PoolConfig::new(max));
+                    let mut pc = deadpool_sqlite::PoolConfig::new(max);
+                    pc.timeouts.recycle = rtmo;
+                    cfg.pool = Some(pc);
                     let pool = cfg.create_pool(deadpool_sqlite::Runtime::Tokio1).unwrap();
                     let mut s = SqliteSubject { pool, next: 0 };
                     history(&mut s, &mut rng, &format!("sp cfg kind=sqlite max={max} method=fast"), max, len).await;
@@ -585,6 +594,7 @@ fn main() {
                     let pool = deadpool_diesel::sqlite::Pool::builder(mgr)
                         .max_size(max)
                         .runtime(deadpool_diesel::Runtime::Tokio1)
+                        .recycle_timeout(rtmo)
                         .build()
                         .unwrap();
                     let mut s = DieselSubject { pool, next: 0, invalid, custom: method >= 2, custom_query: method == 3 };
